@@ -27,8 +27,9 @@ def run(v, tier, seed, replay):
                 continue
             sw = e["hist"][0][0]
             nosrc = not (sw & 4) and not (sw & 16)
-            cases.append(dict(edges=[e], mode=m, t04=[0, -10, 4000][hsh % 3], move=0, order=hsh,
-                              scale=(-40 if (nosrc and m[1] and (hsh >> 5) % 3 == 0) else 0)))
+            td = e["hist"][0][2]
+            cases.append(dict(edges=[e], mode=m, t04=(0 if td else [0, -10, 4000][hsh % 3]), move=0, order=hsh,
+                              scale=(-40 if (nosrc and m[1] and not td and (hsh >> 5) % 3 == 0) else 0)))
     res, fails = solver.flow_replay(exe, cases)
     if fails:
         raise Infra("; ".join(fails[:2]))
